@@ -25,6 +25,88 @@ def _pairs_of(n, prog, fn):
     return None
 
 
+def _key_form(expr, var):
+    """Shape of a set-element expression as a function of the edge variable: 'raw' | 'sorted' | 'frozenset' | other text."""
+    t = txt(expr)
+    if t == var:
+        return "raw"
+    if t in (f"tuple(sorted({var}))", f"tuple(sorted(({var}[0], {var}[1])))"):
+        return "sorted"
+    if t in (f"frozenset({var})", f"frozenset(({var}[0], {var}[1]))"):
+        return "frozenset"
+    return t.replace(var, "<e>")
+
+
+def _claimed_set_strategy(o, prog, fn, sc, par, accept, app, claimed_sets):
+    """Alternative bookkeeping: a set of claimed edges instead of a working copy.  Test set = claim set = all pairs of the
+    clique, and the key form used to RECORD an edge must be the key form used to TEST it."""
+    c = txt(accept.target)
+    S = None
+    for nm in claimed_sets:
+        if any(isinstance(n, ast.Call) and isinstance(n.func, ast.Attribute) and n.func.attr in ("add", "update") and txt(n.func.value) == nm for n in ast.walk(accept)):
+            S = nm
+    if S is None:
+        o.undecided("neither a working copy nor a set of claimed edges is maintained", fn, accept)
+        return
+    adds = [n for n in ast.walk(accept) if isinstance(n, ast.Call) and isinstance(n.func, ast.Attribute) and n.func.attr in ("add", "update") and txt(n.func.value) == S]
+    tests = [n for n in ast.walk(accept) if isinstance(n, ast.Compare) and len(n.ops) == 1 and isinstance(n.ops[0], (ast.In, ast.NotIn)) and txt(n.comparators[0]) == S]
+    if len(adds) != 1 or len(tests) != 1:
+        o.undecided(f"claimed-edge set `{S}`: expected one recording site and one membership test, found {len(adds)} / {len(tests)}", fn, accept)
+        return
+    ad, te = adds[0], tests[0]
+
+    def pairs_source(node):
+        """(edge variable, iterable text) of the comprehension / loop that feeds node."""
+        comps = par.comps_of(node)
+        if comps:
+            g0 = comps[0].generators[0]
+            return txt(g0.target), sc.resolve(g0.iter)
+        lp = [l for l in par.loops_of(node) if l is not accept]
+        if lp:
+            return txt(lp[0].target), sc.resolve(lp[0].iter)
+        return None, None
+    # recording site
+    if ad.func.attr == "update" and isinstance(ad.args[0], (ast.GeneratorExp, ast.ListComp, ast.SetComp)):
+        g0 = ad.args[0].generators[0]
+        evar_a, src_a, form_a = txt(g0.target), sc.resolve(g0.iter), _key_form(ad.args[0].elt, txt(g0.target))
+    elif ad.func.attr == "update":
+        evar_a, src_a, form_a = "e", sc.resolve(ad.args[0]), "raw"
+    else:
+        evar_a, src_a = pairs_source(ad)
+        form_a = _key_form(ad.args[0], evar_a) if evar_a else None
+    evar_t, src_t = pairs_source(te)
+    form_t = _key_form(te.left, evar_t) if evar_t else None
+    if src_a is None or src_t is None:
+        o.undecided("recording / test sites of the claimed-edge set not recognised", fn, ad)
+        return
+    pa, pt = _pairs_of(src_a, prog, fn), _pairs_of(src_t, prog, fn)
+    if pa == c and pt == c:
+        o.holds(fn, ad, f"test set = claim set = all 2-subsets of `{c}`")
+    else:
+        o.violated(fn, ad, f"tested pairs come from `{txt(src_t)}` and recorded pairs from `{txt(src_a)}`; both must be all pairs of the accepted clique `{c}`")
+    if form_a == form_t:
+        o.holds(fn, te, f"edges are recorded and tested in the same key form ({form_a})")
+    else:
+        o.violated(fn, te, f"edges are RECORDED as `{form_a}` but TESTED as `{form_t}`: for an edge whose end points are listed in the other order the test misses the claim, "
+                           "so a sub-clique re-labels an accepted clique's edges and edge-sharing cliques are both accepted")
+    # acceptance guard: append only when no pair is already claimed
+    st_t = par.stmt_of(te)
+    ok_guard = False
+    if isinstance(st_t, ast.If) and any(isinstance(x, ast.Continue) for x in st_t.body):
+        t = st_t.test
+        if isinstance(t, ast.Call) and txt(t.func) == "any" and isinstance(te.ops[0], ast.In):
+            ok_guard = accept.body.index(st_t) < accept.body.index(par.stmt_of(app)) if st_t in accept.body and par.stmt_of(app) in accept.body else False
+    ga = [a for a in par.ancestors(app) if isinstance(a, ast.If) and par.inside(a, accept)]
+    if ga and isinstance(ga[0].test, ast.Call) and txt(ga[0].test.func) == "all" and isinstance(te.ops[0], ast.NotIn) and par.inside(te, ga[0].test):
+        ok_guard = True
+    if ga and isinstance(ga[0].test, ast.UnaryOp) and isinstance(ga[0].test.operand, ast.Call) and txt(ga[0].test.operand.func) == "any" and isinstance(te.ops[0], ast.In):
+        ok_guard = True
+    if ok_guard:
+        o.holds(fn, st_t, "a clique is accepted only when none of its pairs is already claimed")
+    else:
+        o.undecided("acceptance guard of the claimed-set strategy not recognised", fn, st_t)
+
+
 def run(ctx):
     prog = ctx.prog
     ctx.trust("networkx enumerate_all_cliques yields every clique (all sizes >= 1)", "sorted is stable; Graph.copy copies the edge set",
@@ -54,6 +136,8 @@ def run(ctx):
             o.violated(fn, e.node, f"the input graph is changed beyond its 'clique' labels: {e.kind} on {e.path}")
         if not bad and g is not None:
             o.holds(fn, sc.def_stmt(g), f"structural mutators act on `{g} = {G}.copy()`; the only writes to `{G}` are {len(labels)} label store(s)")
+        elif not bad and g is None and not any(isinstance(n, ast.Call) and isinstance(n.func, ast.Attribute) and n.func.attr in astx.GRAPH_MUTATORS for n in astx.walk_fn(fn.node)):
+            o.holds(fn, fn.node, f"no structural mutator is applied to any graph; the only writes to `{G}` are {len(labels)} label store(s)", construct="no graph mutators")
         elif g is None:
             o.undecided(f"no working copy {G}.copy() found", fn)
         rets = [n for n in astx.walk_fn(fn.node) if isinstance(n, ast.Return)]
@@ -162,8 +246,11 @@ def run(ctx):
                 else:
                     o.undecided(f"size-limit test `{t}` not recognised", fn, ifs[0])
 
+    claimed_sets = [nm for nm, sites in sc.assigns.items() if len(sites) == 1 and txt(sites[0].value) in ("set()", "set([])")]
     with ctx.obligation("C10.4", "accept iff all pairs unclaimed, then claim all pairs of the same clique", floor=2) as o:
-        if accept is None or g is None:
+        if accept is not None and g is None and claimed_sets:
+            _claimed_set_strategy(o, prog, fn, sc, par, accept, app, claimed_sets)
+        elif accept is None or g is None:
             o.undecided("acceptance loop / working copy not found", fn)
         else:
             c = txt(accept.target)
